@@ -11,8 +11,7 @@ import SimuVerif.Gen.RemeshConsts
   For every single operation it also checks that the concrete model refines the abstract
   operation of `Model/Surface.lean` (`absok` / `absbad`).
   Before every executed collapse (single `merge` requests and the collapses inside `refine`) it evaluates the
-  hypotheses of the refinement theorem `C01.merge_refines` (`chkMergeHyps`) and of `C01.merge_guard_iff`
-  (`chkSortSpec`: the neighbour lists sorted by `Array.qsort` inside `can_be_merged` are sorted) and appends ` # mhyps <held> <not met>`
+  hypotheses of the refinement theorem `C01.merge_refines` (`chkMergeHyps`) and appends ` # mhyps <held> <not met>`
   to the answer (counts of executed collapses); a collapse whose hypotheses are not met is not an error.
 -/
 open Simu Simu.Remesh Driver
@@ -72,7 +71,7 @@ def mergeHypsInRefine (k : RefineConsts Float) (lminSq lmaxSq : Float) (swapOn :
                 match mergeEdge fnF k.split c e rest with
                 | .error _ => (held, bad, nops)
                 | .ok (c', chk') =>
-                  if chkMergeHyps c e && chkSortSpec c e then loop fuel c' chk' (iter + 1) (held + 1) bad (nops + 1)
+                  if chkMergeHyps c e then loop fuel c' chk' (iter + 1) (held + 1) bad (nops + 1)
                   else loop fuel c' chk' (iter + 1) held (bad + 1) (nops + 1)
             else loop fuel c rest iter held bad nops
     loop maxIter c c.edges 0 0 0 0
@@ -161,7 +160,7 @@ def step (st : St) (line : String) : St × String :=
          | .ok (c', _) =>
            let inew := match c.freeNodes with | i :: _ => i | [] => c.nodes.size
            -- the hypotheses of `C01.merge_refines`, evaluated in the state BEFORE the collapse
-           let mh := if chkMergeHyps c e && chkSortSpec c e then "# mhyps 1 0" else "# mhyps 0 1"
+           let mh := if chkMergeHyps c e then "# mhyps 1 0" else "# mhyps 0 1"
            ({ st with cell := some c' }, s!"ok {absCheck (Surface.collapseT (abs c) e.n1 e.n2 inew) (abs c')} {mh}")
          | .error x => (st, s!"err {x.name}"))
     | _, _, _ => (st, "bad-op")
